@@ -161,6 +161,10 @@ fn gen_txn(r: &mut Rng, fe: Frontend, fault_pct: u64) -> Txn {
         t.nb_deferred_tx = r.chance(1, 3);
         t.nb_spurious = if r.chance(1, 5) { 1 } else { 0 };
         t.nb_timer_late_ms = *r.pick(&[0u32, 0, 0, 3, 40]);
+        if r.chance(1, 25) {
+            // the radio declines the transmit request without reporting an error
+            t.nb_tx_declined = r.range(1, 2) as u8;
+        }
         if r.chance(1, 8) {
             // a request or radio event the state machine cannot serve at that point of the procedure
             t.nb_intrude = (r.range(1, 3) as u8) | ((r.below(3) as u8) << 2);
